@@ -74,6 +74,10 @@ class Tokens(object):
         self.gen = 0  # generated mailbox ids seen so far
         for kind, m in (table or {}).items():
             for tok, conc in m.items():
+                # tokens invented for strings the server made up (generated
+                # mailbox ids, allocated names, unknown values) are per run
+                if tok.startswith("?") or (kind == "mbox" and tok.startswith("g") and tok[1:].isdigit()):
+                    continue
                 self.define(kind, tok, conc)
 
     def define(self, kind, tok, conc):
@@ -362,7 +366,7 @@ class Driver(object):
 
     # -- recording --------------------------------------------------------
     def _begin_step(self):
-        self._step = dict(out=[], tr=[], last=self.read_disk(), files=[])
+        self._step = dict(out=[], tr=[], last=self.read_disk(), files=[], gen0=self.tokens.gen)
         if self.cfg.snapshots:
             self._step["files0"] = self._copy_files()
 
@@ -490,7 +494,13 @@ class Driver(object):
 
         def counting_prune(*a, **kw):
             drv.sweeps_seen += 1
-            return orig_prune(*a, **kw)
+            try:
+                return orig_prune(*a, **kw)
+            except Exception as ex:
+                # expire() catches and logs this; the harness reports it as
+                # the internal error of the sweep step
+                drv._sweep_err = type(ex).__name__
+                raise
         self.server.prune_all_apps = counting_prune
         self.protos = {}
         parent.startService()      # fires the first expire() immediately
@@ -568,6 +578,7 @@ class Driver(object):
         """Execute one abstract event; return the observation record."""
         k = e["k"]
         self._begin_step()
+        self._sweep_err = None
         st = self._step
         err = ABSENT
         crash_at = None
@@ -603,9 +614,11 @@ class Driver(object):
             except Exception as ex:   # pragma: no cover
                 err = type(ex).__name__
             self._fault_armed = False
+            if self._sweep_err is not None and not e.get("fault"):
+                err = self._sweep_err
             if self.sweeps_seen == before:
                 err = "NoSweep"
-            else:
+            elif k == "Sweep":
                 self.next_sweep = self.now_ticks() + self.to_ticks(self.period_secs)
             if k == "CrashInSweep":
                 crash_at = e["at"]
@@ -623,6 +636,8 @@ class Driver(object):
         elif k == "Start":
             try:
                 self._start()
+                if self._sweep_err is not None:
+                    err = self._sweep_err
             except Exception as ex:
                 err = type(ex).__name__
                 self._abandon()
@@ -634,6 +649,8 @@ class Driver(object):
             e["k"] = "Cmd" if k == "CrashInCmd" else "Sweep"
             e["at"] = 0
             crash_at = None
+            if k == "CrashInSweep" and err == ABSENT:
+                self.next_sweep = self.now_ticks() + self.to_ticks(self.period_secs)
         if crash_at is not None:
             # the process died after the crash_at-th durable change of this step
             assert self.cfg.snapshots
@@ -651,6 +668,21 @@ class Driver(object):
             st["tr"] = st["tr"][:crash_at]
             st["out"] = [f for f in st["out"] if f["ci"] <= crash_at]
             err = "crash"
+            # a mailbox id generated inside the step that is neither in the
+            # surviving files nor in a frame that was sent was never seen by
+            # anybody: forget its token
+            T = self.tokens
+            while T.gen > st["gen0"]:
+                tok = "g%d" % T.gen
+                d = self.read_channel()
+                seen = {r["mbox"] for r in d["np"]} | {r["id"] for r in d["mb"]} | \
+                       {r["mbox"] for r in d["mbs"]} | {r["mbox"] for r in d["msgs"]} | \
+                       {f["mailbox"] for f in st["out"]}
+                if tok in seen:
+                    break
+                conc = T.fwd["mbox"].pop(tok)
+                del T.rev["mbox"][conc]
+                T.gen -= 1
         self._step = None
         disk = self.read_disk()
         obs = dict(e=e, out=st["out"], err=err, tr=st["tr"], db=disk["db"], udb=disk["udb"],
